@@ -28,7 +28,7 @@ MANIFEST = {
              "the model; pattern texts are pinned."),
     'technique': 'Lean 4 proof (structural induction over the statement tree / directory tree / line groups) + differential correspondence',
 }
-RULE = ('generated importable modules: random nesting of def / async def / class / decorators (functools.wraps, factories) / properties with '
+RULE = ('generated importable modules: random nesting of def / async def / class / decorators (functools.wraps, factories; defined in the module or IMPORTED from a helper module: wraps-style, identity, class decorators) / properties with '
         'setter and deleter / staticmethod / classmethod / if / if-else / try / try-finally / with / for / while / main guard (both spellings, with and without else-branch definitions, anywhere at module level) / nested defs '
         'and classes / redefinitions / unexecuted branches; docstrings google, freeform, plain, one-line; raw / u / triple-single / '
         'triple-double quotes; opened on their own line or sharing it; 0..3 example blocks. model vs implementation on calldefs, on '
@@ -180,6 +180,8 @@ def build_tree(root, plan):
         if v is None:
             with open(p, 'w') as f:
                 f.write('')
+        elif isinstance(v, (tuple, list)):
+            os.symlink(v[1], p)            # ('link', sibling directory)
         else:
             build_tree(p, v)
 
@@ -209,12 +211,30 @@ def check_package(plan, res, d, label):
         _cnt(res, 'package')
         if mod != obs:
             res['disagree'].append(('package', {'kind': 'package', 'plan': plan, 'flags': [wp, wm, rec, chk]}, repr(mod)[:300], repr(obs)[:300]))
-    # the property, default flags
+    # the property, default flags: passed explicitly, and left to the defaults of the signature
     exp = [list(p) for p in gm.expected_package_files(plan)]
     obs = sorted(observe_package(root, False, True, True, True))
     if obs != exp:
         res['expect'].append(('package', {'kind': 'package', 'plan': plan, 'flags': [False, True, True, True], 'label': label}, exp, obs,
                               'files yielded differ from: .py files all of whose directories down from the root have __init__.py'))
+    from xdoctest import static_analysis
+    obs = sorted(os.path.relpath(p, root).split(os.sep) for p in static_analysis.package_modpaths(root))
+    _cnt(res, 'package:defaults')
+    if obs != exp:
+        res['expect'].append(('package', {'kind': 'package', 'plan': plan, 'flags': 'defaults', 'label': label}, exp, obs,
+                              'package_modpaths(root) with default arguments: files yielded differ from the modules of the package'))
+    # with_libs: compiled extension modules count as modules too
+    libexts = ['.py'] + [e for e in static_analysis._platform_pylib_exts()]
+    a = driver.run_lines(['package\t0111\t%s\t0\t%s' % (enc_list(libexts), fs)], jobs=1)[0]
+    mod = [[dec(c) for c in (p.split(';') if p != '~' else [])] for p in a.split('|')] if a else []
+    obs = observe_package(root, False, True, True, True, with_libs=True)
+    _cnt(res, 'package:with_libs')
+    if mod != obs:
+        res['disagree'].append(('package', {'kind': 'package', 'plan': plan, 'flags': 'with_libs'}, repr(mod)[:300], repr(obs)[:300]))
+    exp_l = [list(p) for p in gm.expected_package_files(plan, exts=tuple(set(os.path.splitext('x' + e)[1] for e in libexts)))]
+    if sorted(obs) != exp_l:
+        res['expect'].append(('package', {'kind': 'package', 'plan': plan, 'flags': 'with_libs', 'label': label}, exp_l, sorted(obs),
+                              'with_libs=True: files yielded differ from the .py and extension-module files of the package'))
     if any(isinstance(v, dict) and '__init__.py' not in v for v in plan.values()) or '__init__.py' not in plan:
         res['nontriv'].add(hash(repr(plan)))
 
@@ -397,7 +417,13 @@ def replay(ctx, failing):
         with cc.scratch_dir() as d:
             root = os.path.join(d, 'pkgroot')
             build_tree(root, inp['plan'])
-            obs = sorted(observe_package(root, *inp['flags']))
+            if inp['flags'] == 'defaults':
+                from xdoctest import static_analysis
+                obs = sorted(os.path.relpath(p, root).split(os.sep) for p in static_analysis.package_modpaths(root))
+            elif inp['flags'] == 'with_libs':
+                obs = sorted(observe_package(root, False, True, True, True, with_libs=True))
+            else:
+                obs = sorted(observe_package(root, *inp['flags']))
         print('tree: %r\nexpected: %r\nobserved now: %r' % (inp['plan'], exp, obs))
         return obs != exp
     if kind == 'docstring':
